@@ -214,6 +214,20 @@ func (fx *Facts) edgePathSets(from, to *ssa.BasicBlock) []FactSet {
 			}
 		}
 	}
+	if phi, isPhi := cond.(*ssa.Phi); isPhi {
+		// a condition computed by && / || (or a flag set on several paths): one set per way it got the value
+		var rps []RetPath
+		fx.valuePaths(phi, w, emptySet(), instrPos(iff), &rps, 0)
+		var out []FactSet
+		for _, rp := range rps {
+			if !rp.Facts.Bottom {
+				out = append(out, rp.Facts)
+			}
+		}
+		if len(out) > 0 {
+			return out
+		}
+	}
 	fs := fx.valueFacts(iff.Cond, func() Want {
 		if from.Succs[0] == to {
 			return WantTrue
